@@ -72,6 +72,8 @@ func c13Model(r *xrand.Rand) (*gen.Model, string) {
 		paths = []string{"/a/{p2}"}
 	}
 	declared := map[string]bool{}
+	var pathTypes []*gen.Block
+	forms := ""
 	declFor := func(path string) *gen.SNode {
 		prefixes, names := gen.PathParams(path)
 		var props []*gen.SProp
@@ -112,7 +114,16 @@ func c13Model(r *xrand.Rand) (*gen.Model, string) {
 		if len(props) == 0 {
 			return nil
 		}
-		return &gen.SNode{Kind: "object", Props: props}
+		decl := &gen.SNode{Kind: "object", Props: props}
+		// the other forms of a Path body: a reference to an object type, an object that inherits some of the parameters
+		if r.Chance(2, 5) {
+			var extra []*gen.Block
+			form := r.Range(1, 2)
+			decl, extra = gen.SplitPathDecl(decl, form, r.Range(1, len(props)), fmt.Sprintf("@pathT%d", len(pathTypes)))
+			pathTypes = append(pathTypes, extra...)
+			forms += []string{"", "R", "A"}[form]
+		}
+		return decl
 	}
 	sites := ""
 	verbs := []string{"GET", "POST", "PUT", "PATCH", "DELETE"}
@@ -155,10 +166,11 @@ func c13Model(r *xrand.Rand) (*gen.Model, string) {
 			blocks = append(blocks, &gen.Block{Kind: "method", Method: me})
 		}
 	}
+	blocks = append(blocks, pathTypes...)
 	for _, i := range r.Perm(len(blocks)) {
 		m.Blocks = append(m.Blocks, blocks[i])
 	}
-	return m, fmt.Sprintf("paths%d params%d sites[%s]", len(paths), strings.Count(strings.Join(paths, ""), "{"), sites)
+	return m, fmt.Sprintf("paths%d params%d sites[%s] forms[%s]", len(paths), strings.Count(strings.Join(paths, ""), "{"), sites, forms)
 }
 
 func c13Eval(t *fw.T, c *fw.Case) {
@@ -219,6 +231,9 @@ func c13Eval(t *fw.T, c *fw.Case) {
 	vs = append(vs, variant{"empty-path-object", base + "GET /zw/{q}\n  Path\n    {}\n  200 any\n"})
 	vs = append(vs, variant{"path-body-regex-type", base + "GET /zv/{q}\n  Path\n    @slug\n  200 any\n"})
 	vs = append(vs, variant{"or-with-object-type", base + "TYPE @objForOr\n  {\"a\": 1}\nGET /zt/{q}\n  Path\n    {\n      \"q\": 1 // {or: [{type: \"integer\"}, \"@objForOr\"]}\n    }\n  200 any\n"})
+	vs = append(vs, variant{"or-with-object-type-before-another-rule", base + "TYPE @objForOr2\n  {\"a\": 1}\nGET /zt2/{q}\n  Path\n    {\n      \"q\": \"abc\" // {or: [\"@name\", \"@objForOr2\"], optional: true}\n    }\n  200 any\n"})
+	vs = append(vs, variant{"or-with-array-type-between-other-rules", base + "TYPE @arrForOr3\n  [1]\nGET /zt3/{q}\n  Path\n    {\n      \"q\": \"abc\" // {optional: true, or: [\"@name\", \"@arrForOr3\"], nullable: false}\n    }\n  200 any\n"})
+	vs = append(vs, variant{"type-rule-object-type-before-another-rule", base + "TYPE @objForType4\n  {\"a\": 1}\nGET /zt4/{q}\n  Path\n    {\n      \"q\": {\"a\": 1} // {type: \"@objForType4\", optional: true}\n    }\n  200 any\n"})
 	vs = append(vs, variant{"reference-to-object-type", base + "TYPE @objRef1\n  {\"a\": 1}\nGET /zs/{q}\n  Path\n    {\n      \"q\": @objRef1\n    }\n  200 any\n"})
 	vs = append(vs, variant{"reference-to-array-type", base + "TYPE @arrRef1\n  [1]\nGET /zr/{q}\n  Path\n    {\n      \"q\": @arrRef1\n    }\n  200 any\n"})
 	vs = append(vs, variant{"alias-of-object-type", base + "TYPE @objRef2\n  {\"a\": 1}\nTYPE @aliasRef2\n  @objRef2\nGET /zq/{q}\n  Path\n    {\n      \"q\": @aliasRef2\n    }\n  200 any\n"})
